@@ -111,7 +111,9 @@ struct Obs
     std::vector<int> systemOf; // per class: smallest class id among the unknowns of its NLA system, -1 = not NLA-solved
     std::multiset<std::string> eqTypes;
     std::string sig, msg; // first failure of the monitor / harness self-checks / well-formedness ("" = none)
-    std::string dump;
+    libcellml::ModelPtr model; // kept alive so that the analyser model can be dumped when a failure is reported
+    libcellml::AnalyserModelPtr am;
+    std::string dump() const;
 };
 void analyse(const TM &m, Obs &o);
 // Ground-truth oracle for a model expected to be valid. Returns "" or a signature (detail in msg).
